@@ -185,6 +185,17 @@ func (w *vWorld) mutate(genuine, other, signer, mut string, rng *mrand.Rand) str
 		claims["nbf"] = now + 3600
 	case "exp":
 		claims["exp"] = now - 3600
+	case "expjust":
+		claims["exp"] = now - 3
+	case "notype":
+		delete(claims, "token_type")
+		delete(claims, "type")
+	case "nulltype":
+		for _, k := range []string{"token_type", "type"} {
+			if _, ok := claims[k]; ok {
+				claims[k] = nil
+			}
+		}
 	case "tamper":
 		pg, po := strings.Split(genuine, "."), strings.Split(other, ".")
 		return pg[0] + "." + po[1] + "." + pg[2]
